@@ -278,7 +278,7 @@ pub fn build_top_level_matcher(
     args: &[&str],
     config: &mut Config,
 ) -> Result<Box<dyn Matcher>, Box<dyn Error>> {
-    let (_, top_level_matcher) = (build_matcher_tree(args, config, 0, false))?;
+    let (_, top_level_matcher) = (build_matcher_tree(args, config, 0, false, 0))?;
 
     // if the matcher doesn't have any side-effects, then we default to printing
     if !top_level_matcher.has_side_effects() {
@@ -289,6 +289,9 @@ pub fn build_top_level_matcher(
     }
     Ok(top_level_matcher)
 }
+
+/// How deeply parentheses may be nested in an expression.
+const MAX_PARENTHESES_DEPTH: usize = 500;
 
 /// Helper function for `build_matcher_tree`.
 fn are_more_expressions(args: &[&str], index: usize) -> bool {
@@ -443,6 +446,7 @@ fn build_matcher_tree(
     config: &mut Config,
     arg_index: usize,
     mut expecting_bracket: bool,
+    depth: usize,
 ) -> Result<(usize, Box<dyn Matcher>), Box<dyn Error>> {
     let mut top_level_matcher = ListMatcherBuilder::new();
 
@@ -820,7 +824,16 @@ fn build_matcher_tree(
                 None
             }
             "(" => {
-                let (new_arg_index, sub_matcher) = build_matcher_tree(args, config, i + 1, true)?;
+                // Each level of parentheses is a level of recursion, here and later in the
+                // matchers: refuse absurd depths instead of overflowing the stack.
+                if depth >= MAX_PARENTHESES_DEPTH {
+                    return Err(From::from(format!(
+                        "invalid expression; parentheses nested more than \
+                         {MAX_PARENTHESES_DEPTH} levels deep."
+                    )));
+                }
+                let (new_arg_index, sub_matcher) =
+                    build_matcher_tree(args, config, i + 1, true, depth + 1)?;
                 i = new_arg_index;
                 Some(sub_matcher)
             }
